@@ -55,7 +55,7 @@ func (x01) Gen(tier string, seed int64, emit func([]Ev)) {
 		}
 		other := func(k int) {
 			for ; k > 0; k-- {
-				o := otherPacket(r)
+				o := plainOther(r)
 				clean(&o)
 				st = append(st, o[:]...)
 			}
